@@ -170,7 +170,7 @@ def payload(kind, seed):
         v = seed
         for i in range(40): v = (v,) if i % 2 else [v]
         return v
-    if kind == 'bigarray': return r.randint(0, 255, size=2600 + seed % 100).astype(float)   # > 2 buffer blocks of BufferedRandom
+    if kind == 'bigarray': return r.randint(0, 255, size=1100 + seed % 50).astype(float)   # more than one 8 KiB buffer block of BufferedRandom: a SIGKILL leaves a partial write
     if kind == 'manylogs': return [seed] * 3
     if kind == 'topo':
         from nutils import mesh
@@ -411,6 +411,20 @@ class Ctx:
         self.max_forks = int(min(150 if c.tier == 'quick' else 6000, (8 if c.tier == 'quick' else 240) / max(self.fork_cost, 1e-3)))
         c.extra['fork_cost_s'] = round(self.fork_cost, 4); c.extra['max_forks'] = self.max_forks
 
+    BUDGET = {  # seconds per stream: (quick, thorough); wall time is bounded whatever the load of the machine, the
+        # number of cases done within the budget is reported (`budget-cut:*` counters say where a loop was cut short)
+        'hypotheses': (8, 150), 'h3': (10, 60), 'truncation': (10, 150), 'histories': (14, 200), 'mixture': (4, 30),
+        'recursion': (10, 170), 'rtrunc': (3, 40), 'concurrency': (10, 120), 'rconc': (5, 60), 'users': (5, 60)}
+
+    def deadline(self, name):
+        return time.time() + self.BUDGET[name][0 if self.c.tier == 'quick' else 1]
+
+    def over(self, name, deadline):
+        if time.time() > deadline:
+            self.c.count('budget-cut:' + name)
+            return True
+        return False
+
     def model(self, reqs):
         set_mem_limit(None)
         try:
@@ -473,16 +487,18 @@ def stream_hypotheses(X):
     tmp = os.path.join(X.root, 'probe')
     nbad = 0; npoints = 0
     seeds = [0, 1] if not thorough else list(range(6))
-    protos = [pickle.DEFAULT_PROTOCOL] if not thorough else [2, 3, 4, 5]
-    if not thorough: protos = [pickle.DEFAULT_PROTOCOL, c.rng.choice([2, 3, 5])]
-    for kind in KINDS:
-        for seed in seeds:
+    protos = [pickle.DEFAULT_PROTOCOL] + ([c.rng.choice([2, 3, 5])] if not thorough else [p_ for p_ in (2, 3, 4, 5) if p_ != pickle.DEFAULT_PROTOCOL])
+    dl = X.deadline('hypotheses')
+    for seed in seeds:
+        for kind in KINDS:
+            if seed != seeds[0] and X.over('hypotheses', dl): break
             rl = treelog.RecordLog()
             with treelog.set(rl):
                 emit_logs(kind, seed)
             obj = (payload(kind, seed), rl)
             want = canon(obj)
             for proto in protos:
+                if proto != protos[0] and X.over('hypotheses', dl): break
                 D = pickle.dumps(obj, protocol=proto)
                 # H3: deterministic within the process
                 if pickle.dumps(pickle.loads(D), protocol=proto) != D or pickle.dumps(obj, protocol=proto) != D:
@@ -560,7 +576,7 @@ def stream_h3_processes(X):
                         res, v = 'escaped', 'MemoryError'
                     stats[res if res != 'loaded' else ('loaded-right' if canon(v) == want else 'loaded-WRONG')] += 1
             return dict(stats)
-        stats = guarded(explore)
+        stats = guarded(explore, seconds=int(X.BUDGET['h3'][0 if c.tier == 'quick' else 1]) + 20)
         if isinstance(stats, dict):
             for s_, n in stats.items(): c.count('H3-violated-overlay:%s:%s' % (k_, s_), n)
         c.obligation('explore:H3-violated-overlays:' + k_, True, 'exploration', stats)
@@ -588,7 +604,9 @@ def stream_truncation(X):
     thorough = c.tier == 'thorough'
     nbad = 0; npts = 0
     kinds = KINDS if thorough else ['small', 'scalars', 'arrays', 'nutypes', 'manylogs', 'bigarray', 'exception', 'topo']
-    for kind in kinds:
+    dl0 = X.deadline('truncation'); t0 = time.time()
+    for ik, kind in enumerate(kinds):
+        dl = t0 + (dl0 - t0) * (ik + 1) / len(kinds)   # every payload kind gets its share
         seed = c.rng.randrange(50)
         ref = X.reference(kind, seed)
         D = ref['D']
@@ -601,7 +619,14 @@ def stream_truncation(X):
             ks = sorted(set(list(range(0, 150)) + list(range(n - 150, n)) + [c.rng.randrange(n) for _ in range(150 if not thorough else 1500)] + list(range(8191, n, 8192)) + list(range(8192, n, 8192))))
         else:
             ks = list(range(n))
-        for k in ks:
+        # first and last bytes first, then the rest in random order, as far as the time budget goes
+        edge = [k for k in ks if k < 12 or k >= n - 12]
+        rest = [k for k in ks if not (k < 12 or k >= n - 12)]
+        c.rng.shuffle(rest)
+        ndone = 0
+        for k in edge + rest:
+            if ndone >= len(edge) + 20 and X.over('truncation', dl): break
+            ndone += 1
             write(path, D[:k])
             out, ncalls, log, trace = real_call(d, kind, seed)
             npts += 1
@@ -619,7 +644,7 @@ def stream_truncation(X):
             c.case(('trunc', kind, k), nontrivial=True)
             if not ok:
                 nbad += 1; break
-        c.count('trunc:' + kind, len(ks))
+        c.count('trunc:' + kind, ndone); c.count('trunc-of:' + kind, len(ks))
         X.drop(d)
     c.obligation('corr:function:every-truncation-point', nbad == 0, 'correspondence', '%d truncation points run through the real decorator' % npts)
 
@@ -629,7 +654,9 @@ def stream_mixture_exploration(X):
     `take k new ++ drop k old` with `old` not a prefix of `new` -- outside the hypotheses of the theorems.  What does the real
     code do with such files?  Runs in a child with an address-space and time limit (garbage can request huge allocations)."""
     c = X.c
+    dl = X.deadline('mixture')
     for kind in (['small', 'arrays'] if c.tier == 'quick' else SMALL_KINDS):
+        if kind != 'small' and X.over('mixture', dl): break
         seed = c.rng.randrange(30)
         ref = X.reference(kind, seed)
         if ref['D'] is None or ref['spec'][0] != 'ret': continue
@@ -651,7 +678,7 @@ def stream_mixture_exploration(X):
                     out = ('exc', 'MemoryError')
                 stats['right' if out == ref['spec'] else 'WRONG-VALUE' if out[0] == 'ret' else 'raises ' + str(out[1])] += 1
             return dict(stats)
-        stats = guarded(explore)
+        stats = guarded(explore, seconds=int(X.BUDGET['mixture'][0 if c.tier == 'quick' else 1]) + 20)
         X.drop(d)
         if isinstance(stats, dict):
             for s_, n in stats.items(): c.count('mixture-over-old-format:' + s_, n)
@@ -680,7 +707,9 @@ def stream_function_histories(X):
         cases.append((kind, seed, init, evs))
     reqs, reals = [], []
     caught_s = model_caught(X.names.get('fn', []))
-    for kind, seed, init, evs in cases:
+    dl = X.deadline('histories')
+    for icase, (kind, seed, init, evs) in enumerate(cases):
+        if icase >= 30 and X.over('histories', dl): break
         ref = X.reference(kind, seed)
         isexc = ref['spec'][0] == 'exc'
         if isexc:
@@ -749,7 +778,7 @@ def stream_function_histories(X):
         reqs.append('fn|%s|%s|%s|%s|%s|%s' % (';'.join('%s:%s' % (bytes_s(b), t) for b, t in table), caught_s, f_s, bytes_s(D), bytes_s(file0), ';'.join(m for m in mev if m)))
         reals.append((kind, seed, init, evs, real, mev, ref, key, file0))
         X.drop(d)
-    ans = X.model(reqs)
+    ans = yield reqs   # one batched call of the Lean driver for all streams (see run)
     ndis = 0
     for (kind, seed, init, evs, real, mev, ref, key, file0), a, rq in zip(reals, ans, reqs):
         if a.startswith('bad-request'):
@@ -760,6 +789,7 @@ def stream_function_histories(X):
         ok = True
         c.case((kind, seed, init, tuple(evs)), nontrivial=len(evs) > 1 or init != 'empty')
         c.count('fh:init:' + init); c.count('fh:kind:' + kind)
+        c.sample(dict(stream='function-histories', payload=kind, pseed=seed, init=init, events=evs, entry_bytes=len(ref['D'] or b''), model=a[:160]), limit=3)
         for e, r, m in zip(evs, real, mev):
             fileb, files = r[-2], r[-1]
             c.count('fh:event:' + e[0])
@@ -1005,7 +1035,9 @@ def stream_recursion(X):
     caught_s = model_caught(X.names.get('rec', []))
     reqs, reals = [], []
     M = 7  # horizon for infinite sequences
+    dl = X.deadline('recursion')
     for hno in range(NH):
+        if hno >= 20 and X.over('recursion', dl): break
         cls = c.rng.choice(RECS)
         length = cls.length
         endkind = c.rng.choice(['stop', 'stop', 'raise', 'inf'])
@@ -1064,7 +1096,7 @@ def stream_recursion(X):
         reqs.append('rec|%d|%s|%s|%s|%s' % (length, caught_s, ';'.join(steps), ';'.join(dumps), ';'.join(mev)))
         reals.append((cls.__name__, spec, evs, real, specrun, vid, steps, Ds, obj))
     c.log('recursion: real runs done, %d forks so far' % X.forks)
-    ans = X.model(reqs)
+    ans = yield reqs   # one batched call of the Lean driver for all streams (see run)
     c.log('recursion: model done')
     ndis = 0
     for (cname, spec, evs, real, specrun, vid, steps, Ds, obj), a, rq in zip(reals, ans, reqs):
@@ -1072,6 +1104,7 @@ def stream_recursion(X):
             raise Infra('C18 driver rejected a request: ' + rq[:300])
         c.case((cname, spec, tuple(evs)), nontrivial=True)
         c.count('rec:class:' + cname); c.count('rec:end:' + spec[1])
+        if len(c.samples) < 5: c.sample(dict(stream='recursion', cls=cname, spec=spec, events=evs, model=a[:200]), limit=5)
         rep = dict(stream='recursion', cls=cname, spec=spec, events=evs, model=a[:3000])
         hkey_ok = True
         ok = True
@@ -1129,7 +1162,9 @@ def stream_recursion(X):
 
     # ---- every truncation point of every item file of a finite recursion (oracle: the uncached sequence; the state satisfies `Inv`)
     nbad = 0; npts = 0
+    dl = X.deadline('rtrunc')
     for cls in ([RecA2, RecB1] if c.tier == 'quick' else RECS):
+        if cls is not RecA2 and X.over('rtrunc', dl): break
         spec = (4, c.rng.choice(['stop', 'raise']), 'tuple' if cls in (RecB1, RecB2) else c.rng.choice(['int', 'array']), 3, 5)
         obj = cls(spec, 'trunc%d' % c.seed)
         specrun = real_iter(None, obj, 9, enabled=False)
@@ -1140,6 +1175,7 @@ def stream_recursion(X):
             if not D: continue
             ks = range(len(D)) if c.tier == 'thorough' else sorted(set([0, 1, len(D) - 1] + [c.rng.randrange(len(D)) for _ in range(12)]))
             for k in ks:
+                if npts >= 10 and X.over('rtrunc', dl): break
                 write(os.path.join(d, subs[0], '%04d' % i), D[:k])
                 r = real_iter(d, obj, 9)
                 npts += 1
@@ -1262,7 +1298,9 @@ def stream_concurrency(X):
     short_t = min(1.0, max(0.15, 3 * X.fork_cost))
     ndis = 0; reqs = []; runs = []
     caught_s = model_caught(X.names.get('fn', []))
+    dl = X.deadline('concurrency')
     for sno in range(NS):
+        if sno >= 2 and X.over('concurrency', dl): break
         kind = c.rng.choice(['small', 'arrays', 'bigarray', 'raise', 'nutypes'])
         seed = c.rng.randrange(20)
         ref = X.reference(kind, seed)
@@ -1377,6 +1415,7 @@ def stream_concurrency(X):
         results = {q.p: (q.state, q.result) for q in procs}
         rep = dict(stream='concurrency', payload=kind, pseed=seed, nprocs=np_, file0=list(file0), log=log, actions=acts, results=results)
         c.case(('conc', kind, seed, tuple(log)), nontrivial=True)
+        if len(c.samples) < 7: c.sample(dict(stream='concurrency', payload=kind, nprocs=np_, observed=log[:40], model_actions=acts[:40]), limit=7)
         c.count('conc:schedules'); c.count('conc:kills', sum(1 for _, m in log if str(m).startswith('KILL')))
         for q in procs:
             c.count('conc:proc:' + q.state)
@@ -1397,11 +1436,11 @@ def stream_concurrency(X):
             c.broken_no_input('corr:lock:progress', 'processes %s never finished (deadlock or lost wake-up): %s' % (stuck, log[-6:]), rep); X.drop(d); continue
         table = '' if isexc else '%s:e 1 1' % bytes_s(D)
         f_s = 'exc 1 1' if isexc else 'ret 1 1'
-        reqs.append('par|%s|%s|%s|%s|%s|1|%d|%s' % (table, caught_s, f_s, ';'.join([bytes_s(D)] * np_), bytes_s(file0), np_, ';'.join(acts)))
+        reqs.append('par|%s|%s|%s|%s|%s|1|%d|%s' % (table, caught_s, f_s, bytes_s(D), bytes_s(file0), np_, ';'.join(acts)))
         runs.append((rep, procs, final, np_, D))
         X.drop(d)
     c.log('concurrency: real schedules done')
-    ans = X.model(reqs)
+    ans = yield reqs   # one batched call of the Lean driver for all streams (see run)
     c.log('concurrency: model done (%d bytes of requests)' % sum(map(len, reqs)))
     for (rep, procs, final, np_, D), a, rq in zip(runs, ans, reqs):
         if a.startswith('bad-request'):
@@ -1422,7 +1461,7 @@ def stream_concurrency(X):
             c.broken_no_input('corr:lock:schedule', 'final state differs from the model: model procs=%s holder=%s file %d bytes; code %s file %d bytes'
                               % (last['procs'], last['holder'], len(last['file'].split()), rep['results'], len(final)), dict(rep, model=a[-1500:]))
         c.traces += 1
-    c.obligation('corr:lock:schedules', ndis == 0, 'correspondence', '%d schedules of 2-3 real processes' % NS)
+    c.obligation('corr:lock:schedules', ndis == 0, 'correspondence', '%d schedules of 2-3 real processes' % len(runs))
 
 
 
@@ -1480,7 +1519,9 @@ def stream_recursion_concurrency(X):
     long_t = max(20.0, 200 * X.fork_cost)
     short_t = min(1.0, max(0.2, 3 * X.fork_cost))
     nbad = 0
+    dl = X.deadline('rconc')
     for sno in range(NS):
+        if sno >= 2 and X.over('rconc', dl): break
         cls = c.rng.choice([RecA1, RecA2, RecB1])
         nitems = c.rng.randint(3, 5)
         spec = (nitems, 'stop', 'tuple' if cls is RecB1 else 'int', c.rng.randint(1, 9), c.rng.randint(0, 99))
@@ -1571,6 +1612,7 @@ def stream_users(X):
              ('System.solve', lambda: solver.System(energy, trial='u').solve(constrain=cons)),
              ('_with_solve.solve_withinfo', lambda: solver.newton('u', residual=energy.derivative('u'), constrain=cons['u']).solve_withinfo(1e-8))]
     import warnings
+    dl = X.deadline('users')
     for name, fn in users:
         def runit(d, enabled=True):
             rec = Recorder()
@@ -1590,7 +1632,8 @@ def stream_users(X):
             nbad += 1; c.broken_no_input('corr:users', '%s is expected to store exactly one cache entry, found %s, trace %s' % (name, files, trace), rep); continue
         path = os.path.join(d, files[0]); D = read(path)
         ks = [None] + sorted(set([0, 1, len(D) - 1] + [c.rng.randrange(len(D)) for _ in range(4 if c.tier == 'quick' else 60)]))
-        for k in ks:
+        for ik, k in enumerate(ks):
+            if ik >= 3 and X.over('users', dl): break
             if k is not None: write(path, D[:k])
             out, log, trace = runit(d)
             c.case(('user', name, k), nontrivial=True); c.count('users:' + name)
@@ -1638,15 +1681,31 @@ def run(c):
     set_mem_limit(8)
 
     only = os.environ.get('C18_ONLY')
-    for st in (stream_hypotheses, stream_h3_processes, stream_truncation, stream_function_histories, stream_mixture_exploration, stream_keys):
-        if only and st.__name__ not in only: continue
-        st(X); c.log('done', st.__name__)
-    for st in (stream_recursion, stream_concurrency, stream_recursion_concurrency, stream_users):
-        if only and st.__name__ not in only: continue
-        st(X); c.log('done', st.__name__)
+    pending = []
+    for st in (stream_hypotheses, stream_h3_processes, stream_truncation, stream_function_histories, stream_mixture_exploration, stream_keys,
+               stream_recursion, stream_concurrency, stream_recursion_concurrency, stream_users):
+        if only and st.__name__ not in only.split(','): continue
+        g = st(X)
+        if g is not None:   # generator stream: first the REAL runs, later (after the batched model call) the comparison
+            pending.append((st.__name__, g, next(g)))
+        c.log('done', st.__name__, '(real part)' if g is not None else '')
+    ans = X.model([r for _, _, reqs in pending for r in reqs])
+    c.log('model answered %d requests' % len(ans))
+    off = 0
+    for name, g, reqs in pending:
+        try:
+            g.send(ans[off:off + len(reqs)])
+        except StopIteration:
+            pass
+        off += len(reqs)
+        c.log('done', name, '(comparison)')
 
     if not ok_extract:
         c.broken_no_input('extract:caught-tuples', 'could not locate the except clauses around pickle.load in cache.py: %s' % names, dict(names=names))
+    found = [v for v in c.violations if not v[2].startswith('broken:')]
     for b in broken:
-        c.broken_no_input('proof', b, dict(detail=b))
+        if found:
+            c.log('proof/generated table broken (%s); failing input(s) found by the streams: %s' % (b[:200], [v[2] for v in found]))
+        else:
+            c.broken_no_input('proof', b, dict(detail=b))
     shutil.rmtree(X.root, ignore_errors=True)
